@@ -57,6 +57,9 @@ def _search_rules(ctx, run):
 
     def orientation(r_):
         o_ = [d_ for c_, d_, _ in r_["cond"] if kind_of(c_) == "orientation"]
+        if not o_ and not any(kind_of(c_) == "orientation" for r2_ in res for c_, _, _ in r2_["cond"]):
+            # no path compares the two ends at all: the first data-dependent decision stands in for the orientation test (R2 judges it)
+            o_ = [d_ for c_, d_, _ in r_["cond"] if kind_of(c_) in ("other", "exact")][:1]
         return o_[0] if o_ else None
 
     inc_all = [r for r in res if not r["raises"] and orientation(r) is False]
@@ -145,7 +148,7 @@ def _search_rules(ctx, run):
     # ---- R2 orientation + termination
     dec = [r2 for r2 in res if orientation(r2) is True and not TM.contradictory(r2["cond"])]
     f_lo, f_hi = Op("call", (fn, lo)), Op("call", (fn, hi))
-    okr = bool(dec) and all(_is_cmp(next(c_ for c_, _, _ in r2["cond"] if kind_of(c_) == "orientation"), f_lo, f_hi, {"gt", "ge"}) for r2 in dec)
+    okr = bool(dec) and all(_is_cmp(next((c_ for c_, _, _ in r2["cond"] if kind_of(c_) == "orientation"), None), f_lo, f_hi, {"gt", "ge"}) for r2 in dec)
     recs = [[e for e in r2["events"] if e["kind"] == "call" and e["callee"] == bis.qualname][:1] for r2 in dec]
     recs = [e for l in recs for e in l]
     by_recursion = bool(recs) and all(same(e["bound"].get("target"), Op("neg", (tg,))) and [e["bound"].get("lower"), e["bound"].get("upper")] == [lo, hi]
